@@ -1,8 +1,9 @@
 (* C11 — the contract of a polymorphic type is transparent for parametric implementations. *)
 From Coq Require Import List String ZArith Bool Lia.
-From NV Require Import Seal.Syntax Seal.Eval Seal.Mono Seal.Typing Seal.LogRel Seal.Fundamental.
+From NV Require Import Seal.Syntax Seal.Eval Seal.Mono Seal.Typing Seal.LogRel Seal.Fundamental Seal.Tail.
 Import ListNotations.
 Open Scope string_scope.
+Open Scope list_scope.
 
 Lemma eval_S_step : forall cf n r e, eval cf (S n) r e = step (force cf n) cf n r e.
 Proof. reflexivity. Qed.
@@ -16,6 +17,7 @@ Section StyInd.
   Hypothesis HFun : forall a b, P a -> P b -> P (SFun a b).
   Hypothesis HArr : forall a, P a -> P (SArr a).
   Hypothesis HRec : forall fs, Forall (fun p => P (snd p)) fs -> P (SRec fs).
+  Hypothesis HRow : forall fs i ex, Forall (fun p => P (snd p)) fs -> P (SRow fs i ex).
   Fixpoint sty_ind' (T : sty) : P T :=
     match T with
     | SVar i => HVar i | SNum => HNum | SBool => HBool | SStr => HStr
@@ -23,6 +25,9 @@ Section StyInd.
     | SArr a => HArr a (sty_ind' a)
     | SRec fs => HRec fs ((fix go (fs : list (string * sty)) : Forall (fun p => P (snd p)) fs :=
                              match fs with [] => Forall_nil _ | p :: fs' => Forall_cons p (sty_ind' (snd p)) (go fs') end) fs)
+    | SRow fs i ex =>
+        HRow fs i ex ((fix go (fs : list (string * sty)) : Forall (fun p => P (snd p)) fs :=
+                         match fs with [] => Forall_nil _ | p :: fs' => Forall_cons p (sty_ind' (snd p)) (go fs') end) fs)
     end.
 End StyInd.
 
@@ -36,6 +41,35 @@ Fixpoint scoped (nv : nat) (T : sty) : Prop :=
   | SRec fs => NoDup (map fst fs)
                /\ (fix go (fs : list (string * sty)) : Prop :=
                      match fs with [] => True | (_, T) :: fs' => scoped nv T /\ go fs' end) fs
+  | SRow fs i _ => i < nv /\ NoDup (map fst fs)
+               /\ (fix go (fs : list (string * sty)) : Prop :=
+                     match fs with [] => True | (_, T) :: fs' => scoped nv T /\ go fs' end) fs
+  end.
+
+(* the instantiation of a row variable is a record type whose fields are distinct, are not among the
+   listed fields and are not excluded *)
+Fixpoint rows_ok (sg : nat -> sty) (T : sty) : Prop :=
+  match T with
+  | SVar _ | SNum | SBool | SStr => True
+  | SFun a b => rows_ok sg a /\ rows_ok sg b
+  | SArr a => rows_ok sg a
+  | SRec fs => (fix go (fs : list (string * sty)) : Prop :=
+                  match fs with [] => True | (_, T) :: fs' => rows_ok sg T /\ go fs' end) fs
+  | SRow fs i ex =>
+      (exists tl, sg i = SRec tl /\ NoDup (map fst tl)
+                  /\ (forall x, In x (map fst tl) -> ~ In x (map fst fs) /\ mem_str x ex = false))
+      /\ (fix go (fs : list (string * sty)) : Prop :=
+            match fs with [] => True | (_, T) :: fs' => rows_ok sg T /\ go fs' end) fs
+  end.
+
+Fixpoint norow (T : sty) : Prop :=
+  match T with
+  | SVar _ | SNum | SBool | SStr => True
+  | SFun a b => norow a /\ norow b
+  | SArr a => norow a
+  | SRec fs => (fix go (fs : list (string * sty)) : Prop :=
+                  match fs with [] => True | (_, T) :: fs' => norow T /\ go fs' end) fs
+  | SRow _ _ _ => False
   end.
 
 Definition wrapT (c : ctr) (l : lbl) (t : thunk) : thunk :=
@@ -57,6 +91,7 @@ Proof.
   - destruct H as [p1 [x1 [b1 [p2 [x2 [b2 [_ [H _]]]]]]]]. subst; congruence.
   - destruct H as [l1 [l2 [_ [H _]]]]. subst; congruence.
   - destruct H as [f1 [f2 [_ [H _]]]]. subst; congruence.
+  - destruct H as [f1 [g1 [l [f2 [g2 [_ [H _]]]]]]]. subst; congruence.
 Qed.
 
 Lemma OR_unsealed_rel : forall d U, is_svar U = false -> unsealed_rel (OR d U).
@@ -96,7 +131,9 @@ Section Wrap.
   Variable keys : nat -> nat.
   Variable sg : nat -> sty.          (* instantiation *)
   Variable d0 : nat -> tyint.
-  Definition ds : nat -> tyint := fun i => MkInt (keys i) (OR d0 (sg i)).
+  Definition ds : nat -> tyint :=
+    fun i => MkInt (keys i) (OR d0 (sg i))
+                   (fun g1 g2 => match sg i with SRec tl => rec_rel d0 tl g1 g2 | _ => False end).
 
   Definition lbl_ok (l : lbl) : Prop := forall i, i < nv -> lookup_tyvar (keys i) (ltenv l) = Some true.
 
@@ -198,9 +235,151 @@ Section Wrap.
     - destruct H as [E1 [E2 [_ H]]]. subst. destruct (IH _ _ H) as [A B]. cbn [map fst]. split; f_equal; assumption.
   Qed.
 
-  Theorem wrap_both : forall T, scoped nv T -> wrap_pos T /\ wrap_neg T.
+  Lemma fields_pos :
+    forall fs, Forall (fun p => wrap_pos (snd p)) fs ->
+      forall l f1 f2, lpol l = true -> lbl_ok l -> rec_rel ds fs f1 f2 ->
+        rec_rel d0 (inst_fields fs)
+          (map (fun '((x, c), (_, t)) => (x, wrap_elem c l t)) (combine (ctr_fields fs) f1)) f2.
   Proof.
-    induction T as [i| | | |a b IHa IHb|a IHa|fs IHfs] using sty_ind'; intros Hsc; cbn [scoped] in Hsc.
+    intros fs HF l. induction HF as [|[x T] fs PT HF IH]; intros f1 f2 Hp Hok Hr;
+      destruct f1 as [|[x1 u1] f1]; destruct f2 as [|[x2 u2] f2]; cbn [rec_rel] in Hr; try contradiction.
+    - exact I.
+    - destruct Hr as [E1 [E2 [Hu Hr]]]. subst x1 x2. cbn [snd] in PT.
+      cbn [ctr_fields inst_fields combine map rec_rel]. split; [reflexivity|]. split; [reflexivity|]. split.
+      + rewrite wrap_elem_wrapT. apply PT; [assumption|assumption|]. eapply lift_var; [reflexivity|exact Hu].
+      + apply IH; assumption.
+  Qed.
+
+  Lemma fields_neg :
+    forall fs, Forall (fun p => wrap_neg (snd p)) fs ->
+      forall l f1 f2, lpol l = false -> lbl_ok l -> rec_rel d0 (inst_fields fs) f1 f2 ->
+        rec_rel ds fs
+          (map (fun '((x, c), (_, t)) => (x, wrap_elem c l t)) (combine (ctr_fields fs) f1)) f2.
+  Proof.
+    intros fs HF l. induction HF as [|[x T] fs NT HF IH]; intros f1 f2 Hp Hok Hr;
+      destruct f1 as [|[x1 u1] f1]; destruct f2 as [|[x2 u2] f2]; cbn [rec_rel inst_fields] in Hr; try contradiction.
+    - exact I.
+    - destruct Hr as [E1 [E2 [Hu Hr]]]. subst x1 x2. cbn [snd] in NT.
+      cbn [ctr_fields combine map rec_rel]. split; [reflexivity|]. split; [reflexivity|]. split.
+      + rewrite wrap_elem_wrapT. apply NT; [assumption|assumption|]. eapply lift_var; [reflexivity|exact Hu].
+      + apply IH; assumption.
+  Qed.
+
+  Lemma inst_fields_names : forall fs, map fst (inst_fields fs) = map fst fs.
+  Proof. induction fs as [|[x T] fs IH]; [reflexivity|]. cbn [inst_fields map fst] in *. f_equal. exact IH. Qed.
+
+  Lemma rec_rel_app :
+    forall d A B f1 f2 g1 g2, rec_rel d A f1 f2 -> rec_rel d B g1 g2 -> rec_rel d (A ++ B) (f1 ++ g1) (f2 ++ g2).
+  Proof.
+    intros d A. induction A as [|[x T] A IH]; intros B f1 f2 g1 g2 Hf Hg;
+      destruct f1 as [|[x1 u1] f1]; destruct f2 as [|[x2 u2] f2]; cbn [rec_rel] in Hf; try contradiction.
+    - exact Hg.
+    - destruct Hf as [E1 [E2 [Hu Hf]]]. cbn [app rec_rel]. repeat split; try assumption. apply IH; assumption.
+  Qed.
+
+  Lemma rec_rel_app_inv :
+    forall d A B F1 F2, rec_rel d (A ++ B) F1 F2 ->
+      exists f1 g1 f2 g2, F1 = f1 ++ g1 /\ F2 = f2 ++ g2 /\ rec_rel d A f1 f2 /\ rec_rel d B g1 g2.
+  Proof.
+    intros d A. induction A as [|[x T] A IH]; intros B F1 F2 H.
+    - exists [], F1, [], F2. repeat split; try reflexivity. exact H.
+    - destruct F1 as [|[x1 u1] F1]; destruct F2 as [|[x2 u2] F2]; cbn [app rec_rel] in H; try contradiction.
+      destruct H as [E1 [E2 [Hu H]]]. destruct (IH B F1 F2 H) as [f1 [g1 [f2 [g2 [A1 [A2 [Hf Hg]]]]]]].
+      exists ((x1, u1) :: f1), g1, ((x2, u2) :: f2), g2. subst. cbn [app rec_rel]. repeat split; assumption.
+  Qed.
+
+  (* set_field / extend_fields on names that are new *)
+  Lemma set_field_new :
+    forall x t fs, ~ In x (map fst fs) -> set_field x t fs = fs ++ [(x, t)].
+  Proof.
+    intros x t fs. induction fs as [|[y u] fs IH]; intros Hn; [reflexivity|].
+    cbn [set_field map fst app] in *. destruct (String.eqb x y) eqn:E.
+    - apply String.eqb_eq in E. subst. exfalso. apply Hn. left. reflexivity.
+    - rewrite IH; [reflexivity|]. intro Hin. apply Hn. right. exact Hin.
+  Qed.
+
+  Lemma extend_fields_new :
+    forall g fs, NoDup (map fst g) -> (forall x, In x (map fst g) -> ~ In x (map fst fs)) ->
+      extend_fields fs g = fs ++ g.
+  Proof.
+    unfold extend_fields. induction g as [|[x t] g IH]; intros fs Hnd Hdis; cbn [fold_left].
+    - rewrite app_nil_r. reflexivity.
+    - cbn [map fst] in Hnd. inversion Hnd; subst.
+      rewrite set_field_new by (apply Hdis; left; reflexivity).
+      rewrite IH.
+      + rewrite <- app_assoc. reflexivity.
+      + assumption.
+      + intros y Hy Hin. rewrite map_app in Hin. apply in_app_or in Hin. destruct Hin as [Hin|Hin].
+        * apply (Hdis y); [right; exact Hy|exact Hin].
+        * cbn in Hin. destruct Hin as [E|[]]. subst y. contradiction.
+  Qed.
+
+  Lemma mem_names : forall {A} (l : list (string * A)) x, mem x l = true <-> In x (map fst l).
+  Proof.
+    intros A l x. unfold mem. induction l as [|[y a] l IH]; cbn [lookup map fst In].
+    - split; [discriminate|contradiction].
+    - destruct (String.eqb x y) eqn:E.
+      + apply String.eqb_eq in E. subst. split; auto.
+      + split.
+        * intro H. right. apply IH. exact H.
+        * intros [H|H]; [subst; rewrite String.eqb_refl in E; discriminate|apply IH; exact H].
+  Qed.
+
+  Lemma mem_false_names : forall {A} (l : list (string * A)) x, ~ In x (map fst l) -> mem x l = false.
+  Proof. intros A l x H. destruct (mem x l) eqn:E; [|reflexivity]. apply mem_names in E. contradiction. Qed.
+
+  Lemma center_of_absent :
+    forall cfs l (b : list (string * thunk)),
+      (forall x, In x (map fst b) -> ~ In x (map fst cfs)) -> center_of cfs l b = [].
+  Proof.
+    intros cfs l b. unfold center_of. induction b as [|[x t] b IH]; intros H; [reflexivity|].
+    cbn [flat_map].
+    assert (E : lookup x cfs = None).
+    { pose proof (mem_false_names cfs x (H x (or_introl eq_refl))) as M. unfold mem in M.
+      destruct (lookup x cfs); [discriminate|reflexivity]. }
+    rewrite E. cbn [app]. apply IH. intros y Hy. apply H. right. exact Hy.
+  Qed.
+
+  Lemma extra_of_present :
+    forall (cfs : list (string * ctr)) (a : list (string * thunk)),
+      (forall x, In x (map fst a) -> In x (map fst cfs)) -> extra_of cfs a = [].
+  Proof.
+    intros cfs a H. unfold extra_of. apply filter_none. intros [x t] Hin.
+    assert (M : mem x cfs = true) by (apply mem_names; apply H; apply (in_map fst) in Hin; exact Hin).
+    rewrite M. reflexivity.
+  Qed.
+
+  Lemma extra_of_absent :
+    forall (cfs : list (string * ctr)) (b : list (string * thunk)),
+      (forall x, In x (map fst b) -> ~ In x (map fst cfs)) -> extra_of cfs b = b.
+  Proof.
+    intros cfs b. unfold extra_of. induction b as [|[x t] b IH]; intros H; [reflexivity|].
+    cbn [filter]. rewrite (mem_false_names cfs x (H x (or_introl eq_refl))). cbn [negb].
+    f_equal. apply IH. intros y Hy. apply H. right. exact Hy.
+  Qed.
+
+  Lemma center_of_aligned :
+    forall l (cfs : list (string * ctr)) (f1 : list (string * thunk)),
+      NoDup (map fst cfs) -> map fst cfs = map fst f1 ->
+      center_of cfs l f1 = map (fun '((x, c), (_, t)) => (x, wrap_elem c l t)) (combine cfs f1).
+  Proof.
+    intros l cfs f1 Hnd Hm. unfold center_of. apply center_aligned; [|exact Hm].
+    intros x c Hin. apply lookup_nodup; assumption.
+  Qed.
+
+  Lemma aligned_names :
+    forall l (cfs : list (string * ctr)) (f1 : list (string * thunk)),
+      map fst cfs = map fst f1 ->
+      map fst (map (fun '((x, c), (_, t)) => (x, wrap_elem c l t)) (combine cfs f1)) = map fst cfs.
+  Proof.
+    intros l cfs. induction cfs as [|[x c] cfs IH]; intros f1 Hm; destruct f1 as [|[y t] f1]; try discriminate; [reflexivity|].
+    cbn [map fst combine] in *. inversion Hm. f_equal. apply IH. assumption.
+  Qed.
+
+  Theorem wrap_both : forall T, scoped nv T -> rows_ok sg T -> wrap_pos T /\ wrap_neg T.
+  Proof.
+    induction T as [i| | | |a b IHa IHb|a IHa|fs IHfs|fs ri ex IHfs] using sty_ind'; intros Hsc Hro;
+      cbn [scoped] in Hsc; cbn [rows_ok] in Hro.
     - (* SVar *)
       split.
       + intros l t1 t2 Hp Hok Hl n r2 H2 Hne.
@@ -226,7 +405,8 @@ Section Wrap.
     - split; base_case.
     - split; base_case.
     - (* SFun *)
-      destruct Hsc as [Hsa Hsb]. destruct (IHa Hsa) as [Pa Na]. destruct (IHb Hsb) as [Pb Nb].
+      destruct Hsc as [Hsa Hsb]. destruct Hro as [Hra Hrb].
+      destruct (IHa Hsa Hra) as [Pa Na]. destruct (IHb Hsb Hrb) as [Pb Nb].
       split.
       + intros l t1 t2 Hp Hok Hl n r2 H2 Hne.
         destruct (Hl n r2 H2 Hne) as [m1 [r1 [H1 HO]]].
@@ -277,7 +457,7 @@ Section Wrap.
                 apply Pa; [cbn; rewrite Hp; reflexivity|apply lbl_ok_flip; assumption|].
                 eapply lift_var; [reflexivity|exact Hu].
     - (* SArr *)
-      destruct (IHa Hsc) as [Pa Na].
+      destruct (IHa Hsc Hro) as [Pa Na].
       split.
       + intros l t1 t2 Hp Hok Hl n r2 H2 Hne.
         destruct (Hl n r2 H2 Hne) as [m1 [r1 [H1 HO]]].
@@ -305,28 +485,12 @@ Section Wrap.
              eapply lift_var; [reflexivity|exact Hu].
     - (* SRec *)
       destruct Hsc as [Hnd Hsall].
-      assert (Hpos : forall l f1 f2, lpol l = true -> lbl_ok l -> rec_rel ds fs f1 f2 ->
-                 rec_rel d0 (inst_fields fs)
-                   (map (fun '((x, c), (_, t)) => (x, wrap_elem c l t)) (combine (ctr_fields fs) f1)) f2).
-      { clear Hnd. intros l. induction IHfs as [|[x T] fs IHT IHfs' IH]; intros f1 f2 Hp Hok Hr;
-          destruct f1 as [|[x1 u1] f1]; destruct f2 as [|[x2 u2] f2]; cbn [rec_rel] in Hr; try contradiction.
-        - exact I.
-        - destruct Hr as [E1 [E2 [Hu Hr]]]. subst x1 x2. destruct Hsall as [HsT Hsall].
-          cbn [snd] in IHT. destruct (IHT HsT) as [PT _].
-          cbn [ctr_fields inst_fields combine map rec_rel]. split; [reflexivity|]. split; [reflexivity|]. split.
-          + rewrite wrap_elem_wrapT. apply PT; [assumption|assumption|]. eapply lift_var; [reflexivity|exact Hu].
-          + apply IH; assumption. }
-      assert (Hneg : forall l f1 f2, lpol l = false -> lbl_ok l -> rec_rel d0 (inst_fields fs) f1 f2 ->
-                 rec_rel ds fs
-                   (map (fun '((x, c), (_, t)) => (x, wrap_elem c l t)) (combine (ctr_fields fs) f1)) f2).
-      { clear Hnd Hpos. intros l. induction IHfs as [|[x T] fs IHT IHfs' IH]; intros f1 f2 Hp Hok Hr;
-          destruct f1 as [|[x1 u1] f1]; destruct f2 as [|[x2 u2] f2]; cbn [rec_rel inst_fields] in Hr; try contradiction.
-        - exact I.
-        - destruct Hr as [E1 [E2 [Hu Hr]]]. subst x1 x2. destruct Hsall as [HsT Hsall].
-          cbn [snd] in IHT. destruct (IHT HsT) as [_ NT].
-          cbn [ctr_fields combine map rec_rel]. split; [reflexivity|]. split; [reflexivity|]. split.
-          + rewrite wrap_elem_wrapT. apply NT; [assumption|assumption|]. eapply lift_var; [reflexivity|exact Hu].
-          + apply IH; assumption. }
+      assert (HFP : Forall (fun p => wrap_pos (snd p)) fs /\ Forall (fun p => wrap_neg (snd p)) fs).
+      { clear Hnd. induction IHfs as [|[x T] fs IHT IHfs' IH]; [split; constructor|].
+        destruct Hsall as [HsT Hsall]. destruct Hro as [HrT Hro]. cbn [snd] in IHT.
+        destruct (IHT HsT HrT) as [PT NT]. destruct (IH Hsall Hro) as [PF NF]. split; constructor; assumption. }
+      destruct HFP as [HFpos HFneg].
+      pose proof (fields_pos fs HFpos) as Hpos. pose proof (fields_neg fs HFneg) as Hneg.
       assert (Hndc : NoDup (map fst (ctr_fields fs))) by (rewrite ctr_fields_names; exact Hnd).
       split.
       + intros l t1 t2 Hp Hok Hl n r2 H2 Hne.
@@ -361,6 +525,87 @@ Section Wrap.
              change (rec_rel ds fs
                        (map (fun '((x, c), (_, t)) => (x, wrap_elem c l t)) (combine (ctr_fields fs) f1)) f2).
              apply Hneg; assumption.
+    - (* SRow *)
+      destruct Hsc as [Hlt [Hnd Hsall]]. destruct Hro as [[tl [Hsg [Hndt Hdis]]] Hrall].
+      assert (HFP : Forall (fun p => wrap_pos (snd p)) fs /\ Forall (fun p => wrap_neg (snd p)) fs).
+      { clear Hnd Hdis. induction IHfs as [|[x T] fs IHT IHfs' IH]; [split; constructor|].
+        destruct Hsall as [HsT Hsall]. destruct Hrall as [HrT Hrall]. cbn [snd] in IHT.
+        destruct (IHT HsT HrT) as [PT NT]. destruct (IH Hsall Hrall) as [PF NF]. split; constructor; assumption. }
+      destruct HFP as [HFpos HFneg].
+      pose proof (fields_pos fs HFpos) as Hpos. pose proof (fields_neg fs HFneg) as Hneg.
+      assert (Hndc : NoDup (map fst (ctr_fields fs))) by (rewrite ctr_fields_names; exact Hnd).
+      assert (Hinst : inst sg (SRow fs ri ex) = SRec (inst_fields fs ++ tl)).
+      { cbn [inst]. rewrite Hsg. reflexivity. }
+      assert (Hctr : sty_ctr keys (SRow fs ri ex) = CRec (ctr_fields fs) (CTVar (keys ri) ex)) by reflexivity.
+      split.
+      + intros l t1 t2 Hp Hok Hl n r2 H2 Hne.
+        destruct (Hl n r2 H2 Hne) as [m1 [r1 [H1 HO]]].
+        cbn [OR] in HO. destruct HO as [[e [E1 E2]]|[f1 [g1 [sl [f2 [g2 [E1 [E2 [Hr Hrow]]]]]]]]].
+        * exists (S m1), (Err e). split.
+          -- rewrite ev_wrapT, Hctr. cbn [chk_with]. rewrite H1, E1. reflexivity.
+          -- rewrite E2. apply OR_err.
+        * change (rec_rel ds fs f1 f2) in Hr.
+          cbn [ds ti_row ti_key] in Hrow, E1. rewrite Hsg in Hrow.
+          destruct (rec_rel_names _ _ _ _ Hr) as [N1 N2].
+          destruct (rec_rel_names _ _ _ _ Hrow) as [M1 M2].
+          assert (Ncf : map fst (ctr_fields fs) = map fst f1) by (rewrite ctr_fields_names; exact N1).
+          exists (S m1), (Ok (VRec (map (fun '((x, c), (_, t)) => (x, wrap_elem c l t)) (combine (ctr_fields fs) f1) ++ g1) RNone)).
+          split.
+          -- rewrite ev_wrapT, Hctr. cbn [chk_with]. rewrite H1, E1. cbn [guard bind].
+             rewrite (tail_unsealed cfg_real (ctr_fields fs) (keys ri) ex l f1 sl g1 RNone).
+             ++ rewrite (center_of_aligned l _ _ Hndc Ncf).
+                rewrite extend_fields_new; [reflexivity| |].
+                ** rewrite <- M1. exact Hndt.
+                ** intros x Hx. rewrite aligned_names by exact Ncf. rewrite ctr_fields_names.
+                   rewrite <- M1 in Hx. apply (Hdis x Hx).
+             ++ rewrite (Hok ri Hlt), Hp. reflexivity.
+             ++ intros x c Hin. eapply mem_of_names; [exact Ncf|exact Hin].
+             ++ apply extra_of_present. intros x Hx. rewrite Ncf. exact Hx.
+          -- rewrite E2, Hinst. cbn [OR]. right. do 2 eexists. split; [reflexivity|]. split; [reflexivity|].
+             change (rec_rel d0 (inst_fields fs ++ tl)
+                       (map (fun '((x, c), (_, t)) => (x, wrap_elem c l t)) (combine (ctr_fields fs) f1) ++ g1) (f2 ++ g2)).
+             apply rec_rel_app; [apply Hpos; assumption|exact Hrow].
+      + intros l t1 t2 Hp Hok Hl n r2 H2 Hne.
+        destruct (Hl n r2 H2 Hne) as [m1 [r1 [H1 HO]]].
+        rewrite Hinst in HO. cbn [OR] in HO. destruct HO as [[e [E1 E2]]|[F1 [F2 [E1 [E2 Hr]]]]].
+        * exists (S m1), (Err e). split.
+          -- rewrite ev_wrapT, Hctr. cbn [chk_with]. rewrite H1, E1. reflexivity.
+          -- rewrite E2. apply OR_err.
+        * change (rec_rel d0 (inst_fields fs ++ tl) F1 F2) in Hr.
+          destruct (rec_rel_app_inv _ _ _ _ _ Hr) as [f1 [g1 [f2 [g2 [A1 [A2 [Hf Hg]]]]]]]. subst F1 F2.
+          destruct (rec_rel_names _ _ _ _ Hf) as [N1 N2].
+          destruct (rec_rel_names _ _ _ _ Hg) as [M1 M2].
+          rewrite inst_fields_names in N1, N2.
+          assert (Ncf : map fst (ctr_fields fs) = map fst f1) by (rewrite ctr_fields_names; exact N1).
+          assert (Hg1 : forall x, In x (map fst g1) -> ~ In x (map fst (ctr_fields fs))).
+          { intros x Hx. rewrite ctr_fields_names. rewrite <- M1 in Hx. apply (Hdis x Hx). }
+          assert (Hext : extra_of (ctr_fields fs) (f1 ++ g1) = g1).
+          { unfold extra_of. rewrite filter_app. fold (extra_of (ctr_fields fs) f1). fold (extra_of (ctr_fields fs) g1).
+            rewrite extra_of_present by (intros x Hx; rewrite Ncf; exact Hx).
+            rewrite extra_of_absent by exact Hg1. reflexivity. }
+          assert (Hcen : center_of (ctr_fields fs) l (f1 ++ g1)
+                         = map (fun '((x, c), (_, t)) => (x, wrap_elem c l t)) (combine (ctr_fields fs) f1)).
+          { unfold center_of. rewrite flat_map_app.
+            fold (center_of (ctr_fields fs) l f1). fold (center_of (ctr_fields fs) l g1).
+            rewrite (center_of_aligned l _ _ Hndc Ncf). rewrite center_of_absent by exact Hg1.
+            rewrite app_nil_r. reflexivity. }
+          exists (S m1), (Ok (VRec (map (fun '((x, c), (_, t)) => (x, wrap_elem c l t)) (combine (ctr_fields fs) f1))
+                                   (RSeal (keys ri) (flip l) g1 RNone))).
+          split.
+          -- rewrite ev_wrapT, Hctr. cbn [chk_with]. rewrite H1, E1. cbn [guard bind].
+             rewrite (tail_sealed cfg_real (ctr_fields fs) (keys ri) ex l (f1 ++ g1) RNone true).
+             ++ rewrite Hcen, Hext. reflexivity.
+             ++ apply (Hok ri Hlt).
+             ++ rewrite Hp. discriminate.
+             ++ intros x c Hin. apply mem_names. rewrite map_app. apply in_or_app. left.
+                rewrite <- Ncf. apply (in_map fst) in Hin. exact Hin.
+             ++ rewrite Hext. intros x t Hin. apply (in_map fst) in Hin. cbn [fst] in Hin.
+                rewrite <- M1 in Hin. apply (Hdis x Hin).
+          -- rewrite E2. cbn [OR]. right. exists (map (fun '((x, c), (_, t)) => (x, wrap_elem c l t)) (combine (ctr_fields fs) f1)), g1, (flip l), f2, g2.
+             split; [reflexivity|]. split; [reflexivity|]. split.
+             ++ change (rec_rel ds fs (map (fun '((x, c), (_, t)) => (x, wrap_elem c l t)) (combine (ctr_fields fs) f1)) f2).
+                apply Hneg; assumption.
+             ++ cbn [ds ti_row]. rewrite Hsg. exact Hg.
   Qed.
 End Wrap.
 
@@ -411,7 +656,7 @@ Proof.
 Qed.
 
 (* an interpretation that is never consulted (closed types) *)
-Definition dtriv : nat -> tyint := fun _ => MkInt 0 (fun _ _ => False).
+Definition dtriv : nat -> tyint := fun _ => MkInt 0 (fun _ _ => False) (fun _ _ => False).
 Lemma dtriv_wf : wf_int dtriv.
 Proof. intros i r1 r2 []. Qed.
 
@@ -428,14 +673,14 @@ Definition var_keys (keys : nat -> nat) (nv : nat) : list nat := map keys (seq 0
    the instantiated type, for every instantiation by non-variable types. *)
 Theorem parametric_transparent :
   forall nv keys sg d0 T f p,
-    scoped nv T -> (forall i, is_svar (sg i) = false) -> has_ty [] f T ->
+    scoped nv T -> rows_ok sg T -> (forall i, is_svar (sg i) = false) -> has_ty [] f T ->
     lift (OR d0 (inst sg T))
          (Th p (Chk (foralls (var_keys keys nv) (sty_ctr keys T)) lbl0 f))
          (Th p f).
 Proof.
-  intros nv keys sg d0 T f p Hsc Hsg Hty.
+  intros nv keys sg d0 T f p Hsc Hro Hsg Hty.
   pose proof (fundamental (ds keys sg d0) f (ds_wf keys sg d0 Hsg) [] T Hty p p (env_rel_nil _ _ _)) as Hf.
-  destruct (wrap_both nv keys sg d0 T Hsc) as [Hpos _].
+  destruct (wrap_both nv keys sg d0 T Hsc Hro) as [Hpos _].
   destruct (lbl_of_inv (var_keys keys nv) lbl0 eq_refl) as [A [B C]].
   { intros k q []. }
   eapply lift_same_ev; [|apply (Hpos (lbl_of (var_keys keys nv) lbl0) (Th p f) (Th p f) A)].
@@ -449,14 +694,14 @@ Qed.
 Theorem parametric_erasure :
   forall x e T k l0 U d0 t,
     passes_only x e T -> is_svar U = false -> lift (OR d0 U) t t ->
-    lift (OR (fun _ => MkInt k (OR d0 U)) T)
+    lift (OR (fun _ => MkInt k (OR d0 U) (fun _ _ => False)) T)
          (Th [(x, Th [("%v", t)] (SealT k l0 (Var "%v")))] e)
          (Th [(x, t)] e).
 Proof.
   intros x e T k l0 U d0 t Hty HU Ht.
-  assert (Hwf : wf_int (fun _ => MkInt k (OR d0 U))).
+  assert (Hwf : wf_int (fun _ => MkInt k (OR d0 U) (fun _ _ => False))).
   { intros i. cbn. apply OR_unsealed_rel. exact HU. }
-  refine (fundamental (fun _ => MkInt k (OR d0 U)) e Hwf [(x, SVar 0)] T Hty _ _ _).
+  refine (fundamental (fun _ => MkInt k (OR d0 U) (fun _ _ => False)) e Hwf [(x, SVar 0)] T Hty _ _ _).
   - intros y T' Hy. cbn [lookup] in *. destruct (String.eqb y x); [|discriminate]. inversion Hy; subst T'.
     do 2 eexists. split; [reflexivity|]. split; [reflexivity|].
     intros n r2 H2 Hne. destruct (Ht n r2 H2 Hne) as [m1 [r1 [H1 HO]]].
@@ -475,13 +720,13 @@ Proof. intros e U p H. apply (fundamental dtriv e dtriv_wf [] U H p p). apply en
    one argument, result of a base type after instantiation *)
 Theorem parametric_same_result :
   forall nv keys sg a b f arg p,
-    scoped nv (SFun a b) -> (forall i, is_svar (sg i) = false) ->
+    scoped nv (SFun a b) -> rows_ok sg (SFun a b) -> (forall i, is_svar (sg i) = false) ->
     has_ty [] f (SFun a b) -> has_ty [] arg (inst sg a) -> is_base (inst sg b) = true ->
     forall n r, eval cfg_real n p (App f arg) = r -> r <> OutOfFuel ->
       exists m, eval cfg_real m p (App (Chk (foralls (var_keys keys nv) (sty_ctr keys (SFun a b))) lbl0 f) arg) = r.
 Proof.
-  intros nv keys sg a b f arg p Hsc Hsg Hf Harg Hb n r Hev Hne.
-  pose proof (parametric_transparent nv keys sg dtriv (SFun a b) f p Hsc Hsg Hf) as Ht. cbn [inst] in Ht.
+  intros nv keys sg a b f arg p Hsc Hro Hsg Hf Harg Hb n r Hev Hne.
+  pose proof (parametric_transparent nv keys sg dtriv (SFun a b) f p Hsc Hro Hsg Hf) as Ht. cbn [inst] in Ht.
   pose proof (typed_self_related arg _ p Harg) as Ha.
   destruct (lift_app _ _ _ _ _ _ _ _ _ Ht Ha n r Hev Hne) as [m [r1 [H1 HO]]].
   exists m. rewrite (OR_base_eq _ _ _ _ Hb HO) in H1. exact H1.
@@ -490,15 +735,15 @@ Qed.
 (* two arguments (callback + data), as in `forall a b. (a -> b) -> a -> b` *)
 Theorem parametric_same_result2 :
   forall nv keys sg a1 a2 b f arg1 arg2 p,
-    scoped nv (SFun a1 (SFun a2 b)) -> (forall i, is_svar (sg i) = false) ->
+    scoped nv (SFun a1 (SFun a2 b)) -> rows_ok sg (SFun a1 (SFun a2 b)) -> (forall i, is_svar (sg i) = false) ->
     has_ty [] f (SFun a1 (SFun a2 b)) -> has_ty [] arg1 (inst sg a1) -> has_ty [] arg2 (inst sg a2) ->
     is_base (inst sg b) = true ->
     forall n r, eval cfg_real n p (App (App f arg1) arg2) = r -> r <> OutOfFuel ->
       exists m, eval cfg_real m p
                   (App (App (Chk (foralls (var_keys keys nv) (sty_ctr keys (SFun a1 (SFun a2 b)))) lbl0 f) arg1) arg2) = r.
 Proof.
-  intros nv keys sg a1 a2 b f arg1 arg2 p Hsc Hsg Hf H1 H2 Hb n r Hev Hne.
-  pose proof (parametric_transparent nv keys sg dtriv _ f p Hsc Hsg Hf) as Ht. cbn [inst] in Ht.
+  intros nv keys sg a1 a2 b f arg1 arg2 p Hsc Hro Hsg Hf H1 H2 Hb n r Hev Hne.
+  pose proof (parametric_transparent nv keys sg dtriv _ f p Hsc Hro Hsg Hf) as Ht. cbn [inst] in Ht.
   pose proof (lift_app _ _ _ _ _ _ _ _ _ Ht (typed_self_related arg1 _ p H1)) as Ht1.
   destruct (lift_app _ _ _ _ _ _ _ _ _ Ht1 (typed_self_related arg2 _ p H2) n r Hev Hne) as [m [r1 [E1 HO]]].
   exists m. rewrite (OR_base_eq _ _ _ _ Hb HO) in E1. exact E1.
@@ -533,15 +778,16 @@ Qed.
 (* the contract typ.rs generates for the body of the foralls, given that every variable is in scope *)
 Lemma compile_sty :
   forall T vars sy keys names nv,
-    scoped nv T ->
+    scoped nv T -> norow T ->
     (forall i, i < nv -> lookup (names i) vars = Some (VCType (keys i))) ->
     compile vars sy (sty_ty names T) = (sty_ctr keys T, sy).
 Proof.
-  induction T as [i| | | |a b IHa IHb|a IHa|fs IHfs] using sty_ind'; intros vars sy keys names nv Hsc Hv;
-    cbn [scoped] in Hsc; cbn [sty_ty compile sty_ctr]; try reflexivity.
+  induction T as [i| | | |a b IHa IHb|a IHa|fs IHfs|fs ri ex IHfs] using sty_ind'; intros vars sy keys names nv Hsc Hnr Hv;
+    cbn [scoped] in Hsc; cbn [norow] in Hnr; try contradiction; cbn [sty_ty compile sty_ctr]; try reflexivity.
   - rewrite (Hv i Hsc). reflexivity.
-  - destruct Hsc as [Ha Hb]. rewrite (IHa vars sy keys names nv Ha Hv). rewrite (IHb vars sy keys names nv Hb Hv). reflexivity.
-  - rewrite (IHa vars sy keys names nv Hsc Hv). reflexivity.
+  - destruct Hsc as [Ha Hb]. destruct Hnr as [Hna Hnb].
+    rewrite (IHa vars sy keys names nv Ha Hna Hv). rewrite (IHb vars sy keys names nv Hb Hnb Hv). reflexivity.
+  - rewrite (IHa vars sy keys names nv Hsc Hnr Hv). reflexivity.
   - destruct Hsc as [_ Hall].
     assert (Hgo :
       (fix go (fs : list (string * ty)) (sy : nat) : list (string * ctr) * nat :=
@@ -557,45 +803,54 @@ Proof.
       = ((fix go (fs : list (string * sty)) : list (string * ctr) :=
             match fs with [] => [] | (x, T) :: fs' => (x, sty_ctr keys T) :: go fs' end) fs, sy)).
     { induction IHfs as [|[x T] fs IHT IHfs' IH]; [reflexivity|].
-      destruct Hall as [HT Hall]. cbn [snd] in IHT.
-      rewrite (IHT vars sy keys names nv HT Hv). rewrite (IH Hall). reflexivity. }
+      destruct Hall as [HT Hall]. destruct Hnr as [HnT Hnr]. cbn [snd] in IHT.
+      rewrite (IHT vars sy keys names nv HT HnT Hv). rewrite (IH Hall Hnr). reflexivity. }
     rewrite Hgo. reflexivity.
 Qed.
 
 Definition names2 (i : nat) : string := match i with 0 => "a" | _ => "b" end.
 
 (* one and two quantifiers, any body *)
+Lemma norow_rows_ok : forall sg T, norow T -> rows_ok sg T.
+Proof.
+  intros sg. induction T as [i| | | |a b IHa IHb|a IHa|fs IHfs|fs ri ex IHfs] using sty_ind'; intros H;
+    cbn [norow rows_ok] in *; try exact I; try contradiction.
+  - destruct H. split; auto.
+  - auto.
+  - induction IHfs as [|[x T] fs IHT IHfs' IH]; [exact I|]. destruct H as [HT H]. split; [apply IHT; exact HT|apply IH; exact H].
+Qed.
+
 Theorem contract_of_forall1 :
-  forall T, scoped 1 T ->
+  forall T, scoped 1 T -> norow T ->
     contract_of (TForall "a" KType (sty_ty names2 T)) = foralls (var_keys (fun i => i) 1) (sty_ctr (fun i => i) T).
 Proof.
-  intros T Hsc. unfold contract_of. cbn [compile].
-  rewrite (compile_sty T [("a", VCType 0)] 1 (fun i => i) names2 1 Hsc); [reflexivity|].
+  intros T Hsc Hnr. unfold contract_of. cbn [compile].
+  rewrite (compile_sty T [("a", VCType 0)] 1 (fun i => i) names2 1 Hsc Hnr); [reflexivity|].
   intros i Hi. assert (i = 0) by lia. subst. reflexivity.
 Qed.
 
 Theorem contract_of_forall2 :
-  forall T, scoped 2 T ->
+  forall T, scoped 2 T -> norow T ->
     contract_of (TForall "a" KType (TForall "b" KType (sty_ty names2 T)))
     = foralls (var_keys (fun i => i) 2) (sty_ctr (fun i => i) T).
 Proof.
-  intros T Hsc. unfold contract_of. cbn [compile].
-  rewrite (compile_sty T [("b", VCType 1); ("a", VCType 0)] 2 (fun i => i) names2 2 Hsc); [reflexivity|].
+  intros T Hsc Hnr. unfold contract_of. cbn [compile].
+  rewrite (compile_sty T [("b", VCType 1); ("a", VCType 0)] 2 (fun i => i) names2 2 Hsc Hnr); [reflexivity|].
   intros i Hi. assert (i = 0 \/ i = 1) as [E|E] by lia; subst; reflexivity.
 Qed.
 
 (* the surface form of the theorem: `(f | forall a b. T) arg1 arg2` for a parametric f *)
 Corollary parametric_annotation_same_result2 :
   forall sg a1 a2 b f arg1 arg2 p,
-    scoped 2 (SFun a1 (SFun a2 b)) -> (forall i, is_svar (sg i) = false) ->
+    scoped 2 (SFun a1 (SFun a2 b)) -> norow (SFun a1 (SFun a2 b)) -> (forall i, is_svar (sg i) = false) ->
     has_ty [] f (SFun a1 (SFun a2 b)) -> has_ty [] arg1 (inst sg a1) -> has_ty [] arg2 (inst sg a2) ->
     is_base (inst sg b) = true ->
     forall n r, eval cfg_real n p (App (App f arg1) arg2) = r -> r <> OutOfFuel ->
       exists m, eval cfg_real m p
                   (App (App (Ann (TForall "a" KType (TForall "b" KType (sty_ty names2 (SFun a1 (SFun a2 b))))) f) arg1) arg2) = r.
 Proof.
-  intros sg a1 a2 b f arg1 arg2 p Hsc Hsg Hf H1 H2 Hb n r Hev Hne.
-  destruct (parametric_same_result2 2 (fun i => i) sg a1 a2 b f arg1 arg2 p Hsc Hsg Hf H1 H2 Hb n r Hev Hne) as [m Hm].
+  intros sg a1 a2 b f arg1 arg2 p Hsc Hnr Hsg Hf H1 H2 Hb n r Hev Hne.
+  destruct (parametric_same_result2 2 (fun i => i) sg a1 a2 b f arg1 arg2 p Hsc (norow_rows_ok sg _ Hnr) Hsg Hf H1 H2 Hb n r Hev Hne) as [m Hm].
   (* Ann t e and Chk (contract_of t) lbl0 e evaluate alike *)
   assert (Hsame : forall k q e1 e2,
              eval cfg_real k q (App (App (Ann (TForall "a" KType (TForall "b" KType (sty_ty names2 (SFun a1 (SFun a2 b))))) f) e1) e2)
@@ -603,7 +858,7 @@ Proof.
   { intros k q e1 e2. destruct k as [|k]; [reflexivity|]. rewrite !eval_S_step. cbn [step].
     destruct k as [|k]; [reflexivity|]. rewrite !force_Th_eval, !eval_S_step. cbn [step].
     destruct k as [|k]; [reflexivity|]. rewrite !force_Th_eval, !eval_S_step. cbn [step].
-    rewrite (contract_of_forall2 _ Hsc). reflexivity. }
+    rewrite (contract_of_forall2 _ Hsc Hnr). reflexivity. }
   exists m. rewrite Hsame. exact Hm.
 Qed.
 
